@@ -233,6 +233,28 @@ def body(chk):
             chk.report(site + ":sub_endpoints", f"subinterval/endpoints [{SE[1]}, {SE[2]}] does not contain the vertex result [{E[1]}, {E[2]}]", rep)
         if SE[1] < SD[1] - tol or SE[2] > SD[2] + tol:
             chk.report(site + ":sub_endpoints", f"subinterval/endpoints [{SE[1]}, {SE[2]}] exceeds the enclosure of the true range [{SD[1]}, {SD[2]}]", rep)
+        # the class API (propagation/p.py): EpistemicPropagation on constructs and Propagation on uncertain numbers give the same intervals
+        if d >= 2:
+            from pyuncertainnumber.propagation.p import EpistemicPropagation, Propagation
+            import pyuncertainnumber as pun
+            ivs = [I(a, b) for a, b in box]
+            routes = [("endpoints", {}, E), ("vertex", {}, E), ("subinterval", dict(subinterval_style="endpoints", n_sub=nsub), SE),
+                      ("subinterval_reconstitution", dict(subinterval_style="direct", n_sub=nsub), SD)]
+            for meth, kw, ref in routes:
+                for api in ("EpistemicPropagation", "Propagation"):
+                    chk.count(f"class-{api}-{meth}", key=(src, tuple(box), meth, api, nsub))
+                    try:
+                        if api == "EpistemicPropagation":
+                            r = EpistemicPropagation(vars=ivs, func=f, method=meth).run(**kw)
+                        else:
+                            r = Propagation(vars=[pun.I([a, b]) for a, b in box], func=f, method=meth).run(**kw)
+                            r = r.construct if hasattr(r, "construct") else r
+                        got = (float(np.min(r.lo)), float(np.max(r.hi)))
+                    except Exception as ex:
+                        chk.report(f"p.{api}:{meth}", f"{api}(method='{meth}').run({kw}) raises {type(ex).__name__}: {str(ex)[:80]} (b2b gives [{ref[1]}, {ref[2]}])", rep)
+                        continue
+                    if got != (ref[1], ref[2]):
+                        chk.report(f"p.{api}:{meth}", f"{api}(method='{meth}').run({kw}) = [{got[0]}, {got[1]}] differs from b2b's [{ref[1]}, {ref[2]}]", rep)
         # tiles partition the box exactly
         if d >= 2:
             sub = subintervalise(I([a for a, _ in box], [b for _, b in box]), nsub)
